@@ -25,9 +25,15 @@ Definition OUT := (list (N * N) * list (list res) * bool * list (list val) * N)%
 Definition BS : nat := 64.            (* BLOCK_SIZE on 64-bit targets *)
 Definition rr_fuel : nat := 3000.     (* rounds of the round-robin tail *)
 
-(* the final sequential read: a dedicated thread running one data_with alone *)
+(* the final sequential read: a dedicated thread running one data_with alone.  Its fuel (rounds =
+   steps, there is one thread) is derived from the state: the reader spends 2 steps before the first
+   block and at most 4 per block, and block ids strictly decrease along the chain, so
+   4 * (number of blocks ever allocated) + 8 always suffices when nothing is in flight
+   (ProofsTrace6.final_read_finishes).  It used to be the constant 400: a live chain of more than
+   ~133 blocks then made the model's final read give up and return [] (DESIGN.md Appendix B). *)
+Definition final_fuel (s : shared) : nat := 4 * length (heap s) + 8.
 Definition final_data (B : nat) (fxa fxc : bool) (s : shared) : list (list val) :=
-  let '(cf, _) := exec_rr (step B fxa fxc) site 400 (s, [init_local 4294967295 [CData]]) in
+  let '(cf, _) := exec_rr (step B fxa fxc) site (final_fuel s) (s, [init_local 4294967295 [CData]]) in
   match snd cf with
   | [l] => match results l with [RData sl] => sl | _ => [] end
   | _ => []
